@@ -161,3 +161,26 @@ F("unknown-stores-value", ["C07"], (B_, "                warnings.warn(msg, cate
 B("groom-keeps-vendor-tags", ["C07"], (B_, "        for child in set(elem):\n            if \".\" in child.tag:\n                logger.debug(f\"Removing extended tag <{child.tag}>\")\n                elem.remove(child)\n", ""))
 B("unknown-logs-too", ["C07"], (B_, "                warnings.warn(msg, category=UnknownTagWarning)\n                return accum", "                warnings.warn(msg, category=UnknownTagWarning)\n                logger.debug(msg)\n                return accum"))
 B("groom-find-without-dot", ["C07"], ("ofxtools/models/email.py", '        frm = elem.find("./FROM")', '        frm = elem.find("FROM")'))
+
+# ---------------------------------------------------------------- C06 / request composition
+F("revert-D5a-acctnum", ["C06"], (C_, "        rq = TAX1099RQ(*taxyears, acctnum=acctnum or None, recid=recid or None)", "        rq = TAX1099RQ(*taxyears, recid=recid or None)"))
+F("revert-D5b-version", ["C06"], (C_, "            ofx,\n            version=version,\n            newfileuid=newfileuid,\n            dryrun=dryrun,\n            timeout=timeout,\n            url=url,\n        )\n\n    def request_tax1099(", "            ofx,\n            newfileuid=newfileuid,\n            dryrun=dryrun,\n            timeout=timeout,\n            url=url,\n        )\n\n    def request_tax1099("))
+F("ccstmt-dates-swapped", ["C06"], (C_, "        acct = CCACCTFROM(acctid=acctid)\n        inctran_ = INCTRAN(dtstart=dtstart, dtend=dtend, include=inctran)", "        acct = CCACCTFROM(acctid=acctid)\n        inctran_ = INCTRAN(dtstart=dtend, dtend=dtstart, include=inctran)"))
+F("ccstmtend-handler-unregistered", ["C06"], (C_, "@wrap_stmtrq.register(CcStmtEndRq)\ndef wrap_stmtrq_ccstmtendrq", "def wrap_stmtrq_ccstmtendrq"))
+F("clientuid-threshold-102", ["C06"], (C_, "        if self.version < 103:", "        if self.version < 102:"))
+F("clientuid-threshold-104", ["C06"], (C_, "        if self.version < 103:", "        if self.version < 104:"))
+F("trnuid-hoisted", ["C06"], (C_, "        stmtrq = STMTRQ(bankacctfrom=acct, inctran=inctran_)\n        trnuid = self.uuid\n        return STMTTRNRQ(trnuid=trnuid, stmtrq=stmtrq)", "        stmtrq = STMTRQ(bankacctfrom=acct, inctran=inctran_)\n        return STMTTRNRQ(trnuid=_TRNUID, stmtrq=stmtrq)"), (C_, 'AUTH_PLACEHOLDER = "{:0<32}".format("anonymous")\n', 'AUTH_PLACEHOLDER = "{:0<32}".format("anonymous")\n_TRNUID = str(uuid.uuid4()).upper()\n'))
+F("requests-sliced", ["C06"], (C_, "                sorted(requests, key=sortKey), key=groupKey", "                sorted(requests[1:], key=sortKey), key=groupKey"))
+F("incpos-hardwired", ["C06"], (C_, "        incpos_ = INCPOS(dtasof=dtasof, include=incpos)", "        incpos_ = INCPOS(dtasof=dtasof, include=True)"))
+F("trnrqs-sort-dropped", ["C06"], (C_, "        trnrqs.sort(key=trnSortKey)\n", ""))
+F("requests-sort-dropped", ["C06"], (C_, "                sorted(requests, key=sortKey), key=groupKey", "                requests, key=groupKey"))
+F("unclosed-guard-dropped", ["C06"], (C_, "            if version >= 200:\n                raise ValueError(\n                    f\"OFX version {version} requires ending tags for elements\"\n                )\n", ""))
+F("unclosed-guard-on-self-version", ["C06"], (C_, "        if close_elements is False:\n            if version >= 200:", "        if close_elements is False:\n            if self.version >= 200:"))
+F("appid-appver-swapped", ["C06"], (C_, "            appid=self.appid,\n            appver=self.appver,", "            appid=self.appver,\n            appver=self.appid,"))
+F("stmtend-wrong-wrapper", ["C06"], (C_, "    return (\n        BANKMSGSRQV1,\n        [client.stmtendtrnrq(**dict(rq._asdict(), bankid=client.bankid)) for rq in rqs],\n    )", "    return (\n        CREDITCARDMSGSRQV1,\n        [client.stmtendtrnrq(**dict(rq._asdict(), bankid=client.bankid)) for rq in rqs],\n    )"))
+F("sort-by-acctid-too", ["C06"], (C_, '        sortKey = attrgetter("__class__.__name__")', '        sortKey = attrgetter("__class__.__name__", "acctid")'))
+F("header-version-self", ["C06"], (C_, "                    version=version, oldfileuid=oldfileuid, newfileuid=newfileuid", "                    version=self.version, oldfileuid=oldfileuid, newfileuid=newfileuid"))
+F("fi-without-fid", ["C06"], (C_, "            fi: Optional[FI] = FI(org=self.org, fid=self.fid)", "            fi: Optional[FI] = FI(org=self.org, fid=self.org)"))
+B("clientuid-threshold-le102", ["C06"], (C_, "        if self.version < 103:", "        if self.version <= 102:"))
+B("builder-inline-trnuid", ["C06"], (C_, "        stmtrq = STMTRQ(bankacctfrom=acct, inctran=inctran_)\n        trnuid = self.uuid\n        return STMTTRNRQ(trnuid=trnuid, stmtrq=stmtrq)", "        stmtrq = STMTRQ(bankacctfrom=acct, inctran=inctran_)\n        return STMTTRNRQ(trnuid=self.uuid, stmtrq=stmtrq)"))
+B("rename-local-acct", ["C06"], (C_, "        acct = CCACCTFROM(acctid=acctid)\n        stmtrq = CCSTMTENDRQ(ccacctfrom=acct, dtstart=dtstart, dtend=dtend)", "        account = CCACCTFROM(acctid=acctid)\n        stmtrq = CCSTMTENDRQ(ccacctfrom=account, dtstart=dtstart, dtend=dtend)"))
